@@ -70,6 +70,7 @@ LineOK(e) ==
   CASE e.e = "pred" -> PredOK(e) [] e.e = "predbig" -> PredBigOK(e) [] e.e = "decp" -> DecPOK(e)
     [] e.e = "muts" -> MutsOK(e) [] e.e = "decm" -> DecMOK(e) [] e.e = "conv" -> ConvOK(e)
     [] e.e = "serde" -> SerdeOK(e)
+    [] OTHER -> FALSE       \* e.g. a panic reported by the harness is never explained
 
 TraceInit == l = 1
 TraceNext == l <= Len(Rec) /\ LineOK(Rec[l]) /\ l' = l + 1
